@@ -219,7 +219,7 @@ def table():
 IMPORTS = "Base.Prelude Base.CaseLib Ops.Machine Ops.Multi Ops.MultiCase Ops.Combinators"
 
 
-def run_ops(chk, pid, names, oracle, ncase=None, extra_sources=3, p_dispose=0.15):
+def run_ops(chk, pid, names, oracle, ncase=None, extra_sources=3, p_dispose=0.15, p_sub_raises=0.0):
     """generic loop: for each operator name, seeded instances x seeded event
     interleavings; correspondence with the machine + the property oracle."""
     import lib
@@ -244,8 +244,11 @@ def run_ops(chk, pid, names, oracle, ncase=None, extra_sources=3, p_dispose=0.15
             if chk.rng.random() < 0.35:
                 warm = k2m.gen_events(chk.rng, nsrc, maxlen=3, p_none=0.5)
                 hist["resubscribed"] = hist.get("resubscribed", 0) + 1
+            sraise = chk.rng.random() < p_sub_raises
+            if sraise:
+                hist["subscriber_terminal_callback_raises"] = hist.get("subscriber_terminal_callback_raises", 0) + 1
             res = k2m.run_multi(inst["build"], inst["n_static"], evs, dispose_at=disp, warmup=warm,
-                                after_warmup=inst.get("reset"))
+                                after_warmup=inst.get("reset"), subscriber_raises=sraise)
             chk.cov["evaluations"] += 1
             per_op[name] = per_op.get(name, 0) + 1
             if res["build_error"] is not None:
